@@ -17,6 +17,8 @@ import (
 	"golang.org/x/tools/go/ssa/ssautil"
 )
 
+var progress = os.Getenv("VERIF_PROGRESS") != ""
+
 const ModulePath = "github.com/couchbase/nitro"
 
 func crc32IEEE(b []byte) uint32 { return crc32.ChecksumIEEE(b) }
@@ -261,6 +263,9 @@ func (p *Program) exploreOnce(entry *ssa.Function) (*Result, error) {
 				ab := st.runPath(entry)
 				mu.Lock()
 				res.Paths++
+				if progress && res.Paths%500 == 0 {
+					fmt.Fprintf(os.Stderr, "progress: paths=%d queue=%d viol=%d\n", res.Paths, len(q.items), len(res.Violations))
+				}
 				res.Instrs += st.nInstr
 				res.Asserts += st.asserts
 				res.Inconclusive += st.assertsU
@@ -289,7 +294,7 @@ func (p *Program) exploreOnce(entry *ssa.Function) (*Result, error) {
 					if st.violation != nil {
 						res.Violations = append(res.Violations, st.violation)
 					}
-					if cfg.StopOnFirst {
+					if cfg.StopOnFirst || (cfg.MaxViolations > 0 && len(res.Violations) >= cfg.MaxViolations) {
 						q.stop()
 					}
 				case abUnsupported:
